@@ -140,7 +140,9 @@ Take ==
   /\ queue' = Tail(queue)
   /\ UNCHANGED <<hist, conn, delivered, gate, script>>
 
-Next == \/ CanSend /\ \E c \in Alphabet : Send(c)
+Next == \/ CanSend /\ IF FinalValid /\ Len(hist) = MaxReq - 1
+                      THEN Send(ValidReq)   \* (Alphabet is not evaluated)
+                      ELSE \E c \in Alphabet : Send(c)
         \/ \E i \in DOMAIN conn : Handle(i) \/ PeerClose(i)
         \/ Deliver \/ Take \/ Block \/ Release
 Spec == Init /\ [][Next]_vars
@@ -248,14 +250,6 @@ QueueTiny == {ValidReq,
               [ValidReq EXCEPT !.body = "dupParam"],
               [ValidReq EXCEPT !.body = "unknownMethod"]}
 
-(* every lexeme class at every converted position, everything else valid;  *)
-(* the same with one more deviation                                        *)
-LexAlone == UNION {{[ValidReq EXCEPT !.body = LexBodyOf(p, x),
-                                     !.lpos = p, !.lex = x] : x \in LexAt[p]}
-                   : p \in LexPositions}
-AroundBase(b) == Around(b) \ {[b EXCEPT !.body = v] : v \in Bodies \ {b.body}}
-LexUpTo2 == UNION {AroundBase(c) : c \in LexAlone}
-
 (* class lists for the harness (printed once by the Emit configuration)    *)
 Tup(c) == <<c.verb, c.accept, c.charset, c.range, c.ctype, c.cenc, c.clen,
             c.body, c.lpos, c.lex>>
@@ -276,6 +270,5 @@ ScriptTup == [k \in DOMAIN script |->
 InvEmitScripts == (Complete /\ HitFull) => PrintT(<<"SCR", ScriptTup>>)
 EmitClasses == PrintT(<<"CLS1", {Tup(c) : c \in UpTo1}>>)
                /\ PrintT(<<"CLS2", {Tup(c) : c \in UpTo2 \ UpTo1}>>)
-               /\ PrintT(<<"LEX1", {Tup(c) : c \in LexAlone}>>)
-               /\ PrintT(<<"LEX2", {Tup(c) : c \in LexUpTo2 \ LexAlone}>>)
+
 =============================================================================
